@@ -223,6 +223,7 @@ def run_case(case):
             peer.healthy = True
             peer.script = []
             n0 = peer.seq
+            w.clock.sleep(3.0)        # the line is idle for a while: anything late has arrived by now
             try:
                 freq = kinds.build(case['follow'][0], case['follow'][1], unit=case['unit'])
                 fres = client.execute(freq)
